@@ -34,7 +34,17 @@ for d in sorted(glob.glob(R + '/seeded/*')):
     seed.append("| %s | %s | %s | %s |" % (os.path.basename(d), cl(meta.get('title'), 120), cl(meta.get('needs'), 170), cl(meta.get('check_result'), 400)))
 prose = open(R + '/tools/design10_prose.md').read()
 na = "\n".join("* **%s** — %s" % (e['property_id'], e['reason']) for e in m.get('not_applicable', []))
-sec = prose.replace('{TABLE}', table).replace('{TOTAL}', str(total)).replace('{NCHECKS}', str(len(m['checks']))) \
+import subprocess
+def _lines(pattern, exclude=None):
+    n = 0
+    for f in glob.glob(pattern, recursive=True):
+        if exclude and exclude in f: continue
+        try: n += sum(1 for _ in open(f, errors='ignore'))
+        except Exception: pass
+    return n
+coq_lines = _lines(R + '/coq/**/*.v', '/Gen/')
+go_lines = _lines(R + '/go/**/*.go')
+sec = prose.replace('{COQ_LINES}', '%d' % coq_lines).replace('{GO_LINES}', '%d' % go_lines).replace('{TABLE}', table).replace('{TOTAL}', str(total)).replace('{NCHECKS}', str(len(m['checks']))) \
            .replace('{FIXED}', fx).replace('{KNOWN}', kn).replace('{SEEDS}', "\n".join(seed)).replace('{NSEEDS}', str(len(seed))) \
            .replace('{NOTAPPLICABLE}', na).replace('{HARMLESS}', open(R + '/tools/harmless_result.md').read().strip())
 open(p, "w").write(s.rstrip("\n") + "\n" + marker + sec)
